@@ -208,9 +208,23 @@ class Run:
             rid, k = 100 + si, 0
         direction = 0 if key[2] == "create" else 1
         purpose = self.purpose_map.get((key[0], key[1]), key[1])   # what the stack currently answers for this socket
-        if self.issued_pairs.get(key, 0) < self.delivered[si]:
+        if spec["kind"] != "E" and self.issued_pairs.get(key, 0) < self.delivered[si]:
             self.early_arrivals += 1
         ex = self.ex
+        if spec["kind"] == "E":
+            # an error report of the link layer (e.g. a timeout of some other request): the executor reports it - once
+            self.delivered[si] -= 0
+            err = ql.LinkLayerErr(type=ql.ReturnType.ERR, create_id=rid, error_code=ql.ErrorCode.TIMEOUT, use_sequence_number_range=False,
+                                  sequence_number_low=0, sequence_number_high=0, origin_node_id=key[0])
+            self.errors_reported = getattr(self, "errors_reported", 0) + 1
+            try:
+                ex._handle_epr_response(err)
+            except RuntimeError as exc:
+                if "error from the network stack" not in str(exc):
+                    raise Violation(f"delivering an error response raised {type(exc).__name__}: {str(exc).splitlines()[0][:160]}")
+            except Exception as exc:
+                raise Violation(f"delivering an error response raised {type(exc).__name__}: {str(exc).splitlines()[0][:160]}")
+            return
         if spec["kind"] == "K":
             phys = ex._get_unused_physical_qubit()
             ex.inflight_phys.add(phys)
